@@ -321,6 +321,21 @@ def p4_merge_per_entry_order(ctx):
             fo = ho[4].get(fld)
             pe = fo
             good = fo is not None and fo[0] == "field" and fo[2] == fld and fo[1][0] == "var" and fo[1][1] == m.entry_var
+            # or the very value the entry's field was re-pointed to in this iteration (`len: nbytes`)
+            if not good and fo is not None and fld in by and fo == by[fld]:
+                good = True
+                if fo[0] == "var" and fo[3] is None:
+                    # a running variable: it must not be advanced between the entry's re-pointing
+                    # and the construction of the hint record
+                    kb = [bb for bb, f2, o2, st2 in m.kd_writes if f2 == fld]
+                    hb = [bb for bb in b.live_blocks() for st2 in b.blocks[bb]["stmts"] if st2["k"] == "assign" and st2["rv"]["k"] == "agg" and st2["rv"]["ak"] == "adt" and strip_generics(st2["rv"]["adt"]).endswith("HintFileEntry")]
+                    defs = {d[0] for d in b.defs.get(fo[1], [])}
+                    for k0 in kb:
+                        for h0 in hb:
+                            between = reach(b, [k0], blocked_edges=lambda e: e.kind == "unwind", blocked_blocks={h0}) - {k0}
+                            for d0 in defs & between:
+                                if h0 in reach(b, [d0], blocked_edges=lambda e: e.kind == "unwind"):
+                                    good = False
             r.add(f, "hint.%s = entry.%s" % (fld, fld), good, where(b, hbb), origin_str(fo) if fo else "missing")
         ko = ho[4].get("key")
         good = ko is not None and bool(origin_mentions(ko, lambda x: x[0] == "call" and x[1] and x[1].split("::")[-1] == "key" and x[2] and x[2][0][0] == "var" and x[2][0][1] == m.entry_var))
@@ -524,6 +539,34 @@ def p5_merge_outputs_before_unlink(ctx):
         good = bool(idp) and all(("var:" + i.split("var:")[-1]) in s or i in s for i in idp) and "Add" in s and "const 1" in s
         r.add(f, "P16: new active id = last output id + 1", good, where(b, rbb), s)
         # rotation only after the unlink loop finished (a failed merge keeps the old active file)
+    # ---- P5d: a merge that returns Ok removed what it selected
+    nb = m.unlink_loop_next
+    if nb is not None:
+        none_edges = set()
+        for bb in b.live_blocks():
+            inf = b.switch_info(bb)
+            if inf and inf["kind"] == "variant":
+                o = peel_var(inf["on"])
+                if o[0] == "call" and o[3] == (b.path, nb):
+                    for e in b.succ[bb]:
+                        if inf["arms"].get(e.dst) == ["None"]:
+                            none_edges.add((e.src, e.dst))
+        # the one admissible shortcut: the selection itself is empty
+        empty_edges = set()
+        for bb in b.live_blocks():
+            inf = b.switch_info(bb)
+            if inf and inf["kind"] == "bool":
+                o = peel_var(inf["on"])
+                neg = False
+                if o[0] == "un" and o[1] == "Not":
+                    o, neg = peel_var(o[2]), True
+                if o[0] == "call" and o[1] and o[1].split("::")[-1] == "is_empty" and m.sel_site and origin_mentions(o, lambda x: x[0] == "call" and x[3] == m.sel_site):
+                    for e in b.succ[bb]:
+                        if inf["arms"].get(e.dst) == [not neg]:
+                            empty_edges.add((e.src, e.dst))
+        cls = {c for c, d, rb in ret_classes(b, 0, lambda e: e.kind == "unwind" or (e.src, e.dst) in none_edges or (e.src, e.dst) in empty_edges)}
+        leak = [c for c in cls if c not in ("err", "unwind")]
+        r.add(f, "P5d: every Ok return went through the whole unlink loop (or the selection was empty)", bool(none_edges) and not leak, where(b, nb), "" if not leak else "the merge can return Ok without removing the files it selected (their dead data is never reclaimed; the next pass selects and skips them again)")
     return r
 
 
